@@ -92,6 +92,11 @@ def run(tier):
             f.write(job["text"])
         with open(src, "w", encoding="utf-8") as f:
             f.write(all_src[job["src"] - 1])
+        if o["output"] and k % 2 == 0:
+            # the named file already exists and is longer than the new output (an earlier, larger result)
+            with open(outf, "w", encoding="utf-8") as f:
+                f.write("[\n" + ",\n".join('  {"id": %d, "edges": [], "attrs": {"stale": {"type": "string", "string": "left over"}}}' % i for i in range(60)) + "\n]\n")
+            job["preexisting"] = True
         cmd = [cli, tsg, src]
         if o["lazy"]:
             cmd.append("--lazy")
@@ -146,7 +151,7 @@ def run(tier):
                             problems.append("--output file differs from the library's JSON")
                 except (OSError, ValueError) as ex:
                     problems.append("--output file missing or invalid: %s" % ex)
-            elif os.path.exists(outf):
+            elif os.path.exists(outf) and not job.get("preexisting"):
                 problems.append("an --output file was written although none was requested")
         else:
             stats2["exit_nonzero"] += 1
@@ -154,8 +159,10 @@ def run(tier):
                 problems.append("a graph or other text was printed on stdout although the run failed: %r" % out[:80])
             if err.strip() == "":
                 problems.append("no diagnostic on stderr")
-            if os.path.exists(outf):
+            if os.path.exists(outf) and not job.get("preexisting"):
                 problems.append("an --output file was written although the run failed")
+            if job.get("preexisting") and os.path.exists(outf) and "left over" not in open(outf, encoding="utf-8").read():
+                problems.append("the existing --output file was modified although the run failed")
         if problems:
             payload["detail"] = "; ".join(problems)
             V.violation("row%d" % k, payload, sig)
